@@ -79,6 +79,44 @@ def _install_guards(stats: dict) -> None:
         core._PATCH_REGISTRATIONS.pop(_k, None)
     stats["decimal_shim_replaced"] = True
 
+    # --- CrossHair's StringIO model concatenates with `+`: a str *subclass* that
+    # overrides __radd__ (markupsafe.Markup escapes its left operand) garbles the buffer
+    # (observed: engine-authored `<tr ...>` came back escaped).  The real C StringIO
+    # stores the characters only, so coerce str subclasses to exact str first.
+    import crosshair.libimpl.iolib as _iolib
+
+    _model_write = _iolib.BackedStringIO.write
+
+    def _write_plain(self, string):  # type: ignore[no-untyped-def]
+        if type(string) is not str and isinstance(string, str):
+            string = str.__str__(string)
+        return _model_write(self, string)
+
+    _iolib.BackedStringIO.write = _write_plain  # type: ignore[method-assign]
+    stats["stringio_model_write_coerces_str_subclasses"] = True
+
+    # --- CrossHair models str.join by `+` concatenation.  C-level str.join ignores
+    # operator overloading of str subclasses; `+` does not: a markupsafe.Markup item
+    # escapes everything joined before it (observed: unquote_plus(Markup("%3C")) came
+    # back as Markup("&lt;") instead of "<", hiding an unsafe flow in C04).  Coerce
+    # str-subclass items (and separator) to exact str before the model runs.
+    import crosshair.libimpl.builtinslib as _bl
+    from crosshair.libimpl.builtinslib import AnySymbolicStr
+
+    _model_join = _bl._str_join
+
+    def _plain(x):  # type: ignore[no-untyped-def]
+        if type(x) is not str and isinstance(x, str) and not isinstance(x, AnySymbolicStr):
+            return str.__str__(x)
+        return x
+
+    def _str_join_plain(self, itr):  # type: ignore[no-untyped-def]
+        return _model_join(_plain(self), [_plain(i) for i in itr])
+
+    if core._PATCH_REGISTRATIONS.get(str.join) is _model_join:
+        core._PATCH_REGISTRATIONS[str.join] = _str_join_plain
+        stats["str_join_model_coerces_str_subclasses"] = True
+
     # --- guard 3: regex sentinel -------------------------------------------
     # CrossHair's symbolic regex model disagrees with CPython on this lexer
     # (Match.lastgroup for nested named groups).  A symbolic string must never
